@@ -6072,12 +6072,8 @@ fn eval_built_in_method_call(
 
             let mut value = Value::none();
             if let Some(needle_byte_offset) = receiver_s.find(arg_s) {
-                for (i, (byte_offset, _)) in receiver_s.char_indices().enumerate() {
-                    if byte_offset == needle_byte_offset {
-                        value = Value::some(Value::new(Value_::Int(i as i64)));
-                        break;
-                    }
-                }
+                let i = receiver_s[..needle_byte_offset].chars().count();
+                value = Value::some(Value::new(Value_::Int(i as i64)));
             }
 
             if expr_value_is_used {
